@@ -33,6 +33,60 @@ def world(maxlen=3):
         ["all", "f", "g", "h", "i"], ["all"]), sels
 
 
+CMDS = [("ifchange", ("lib",)), ("redo", ("lib",)), ("ifchange", ("app",)), ("redo", ("app",))]
+
+
+def driver_world(maxlen=3):
+    """several redo commands inside ONE run: driver.do runs a sequence of redo-ifchange / redo commands, records each
+    status and carries on.  lib fails iff the flag `broken` is 1 -- an input it does not declare, so a redo-ifchange of
+    lib finds it up to date (and marks it checked for this run) right before a forced `redo lib` fails."""
+    seqs = []
+    for n in range(1, maxlen + 1):
+        seqs += [list(p) for p in itertools.product(CMDS, repeat=n)]
+    w = World(
+        "c05-driver", {"s": ["0", "1"], "broken": ["0", "1"]},
+        {"lib.do": [S(deps=["s"], fail="broken", fail_undeclared=True)], "app.do": [S(deps=["lib"], out="file")],
+         "driver.do": [S(seq=seq, tag="seq%d" % i) for i, seq in enumerate(seqs)]},
+        ["driver", "app", "lib"], ["driver"])
+    return w, seqs
+
+
+def driver_histories(seqs):
+    hs = []
+    for k in range(len(seqs)):
+        hs.append([["ifchange", ["app"]], ["edit", "broken", "1"], ["dovar", "driver.do", k], ["redo", ["driver"]],
+                   ["redo", ["driver"]], ["edit", "broken", "0"], ["redo", ["driver"]]])
+    return hs
+
+
+def driver_check(proj, i, obs):
+    op = obs["op"]
+    if op[0] not in ("ifchange", "redo"):
+        return []
+    out = []
+    out += oracles.check_exit(proj, obs)
+    out += oracles.check_runset(proj, obs)
+    pred = obs["pred"].get("seq", {}).get("driver")
+    if pred is not None:
+        got = {}
+        for l in obs["trace"]:
+            if l.startswith("Q driver "):
+                _q, _t, idx, rc = l.split(" ")
+                got[int(idx)] = int(rc)
+        out.append(e1prop.stat("driver-runs-judged"))
+        for idx, ok in enumerate(pred):
+            if idx not in got:
+                out.append(({"kind": "driver-command-not-reached", "index": idx}, {"trace": obs["trace"]}))
+            elif (got[idx] == 0) != ok:
+                seq = proj.w.rules["driver.do"][proj.model.variant["driver.do"]].seq
+                out.append(({"kind": "wrong-status-inside-a-run", "command": list(seq[idx]), "expected_success": ok,
+                             "after": [list(c) for c in seq[:idx]]},
+                            {"got_rc": got[idx], "trace": obs["trace"], "err": obs["err"][-500:]}))
+            if not ok:
+                out.append(e1prop.stat("commands-inside-a-run-expected-to-fail"))
+    return out
+
+
 REC = re.compile(r"^@@REDO:([a-z]+):(\d+):[0-9.]+@@ (.*)$")
 
 
@@ -116,15 +170,18 @@ def histories(sels, tier):
 def main(tier):
     w, sels = world(2 if tier == "quick" else 3)
     hs = histories(sels, tier)
+    dw, seqs = driver_world(3)
     return e1prop.run_property(
-        PID, tier, [(w, hs, 0)], "rv.props.c05",
+        PID, tier, [(w, hs, 0), (dw, driver_histories(seqs), 0)], "rv.props.c05", check_names={"c05-driver": "driver_check"},
         rule="world {f fails iff flag, g->f, h, i->h}; every ordered selection of <= n of {f,g,h,i} (quick n=2, thorough n=3) "
              "as the command line of redo-ifchange, of redo, and as the redo-ifchange list inside all.do; x {-k, no -k}; x "
              "{failure at first build, failure at a later rebuild}; each history = build, build again unchanged, repair, build. "
              "Oracles: exit status vs reference, executed set == reference incl. retry in the next run, <=1 execution per run, "
              "no script completes after a failed dependency, -k builds every buildable requested target, without -k no `do` "
              "record follows a non-zero `done` in one process's record stream, contents after exit 0. Serial (-j1) half of "
-             "the property; the -j2 interleavings are explored by the E2 scenarios of C05/C09.",
+             "the property; the -j2 interleavings are explored by the E2 scenarios of C05/C09. Second family: a driver script runs every "
+             "sequence of <= n (quick 2, thorough 3) commands from {redo-ifchange lib, redo lib, redo-ifchange app, redo app} inside ONE run "
+             "(lib fails through an undeclared input): the status of every command inside the run must match the reference.",
         assumptions=["-j1, REDO_LOG=0", "one world shape (failing leaf, dependent, independent sibling, dependent of sibling)"],
         budget_s=None)
 
@@ -132,8 +189,12 @@ def main(tier):
 def replay(path):
     doc = json.load(open(path))
     w, sels = world(3)
+    chk = step_check
+    if doc.get("world") == "c05-driver":
+        w, _ = driver_world(3)
+        chk = driver_check
     bindir = common.build_subject()
-    key, viols, summ = replay_history(w, doc["history"], step_check, bindir=bindir)
+    key, viols, summ = replay_history(w, doc["history"], chk, bindir=bindir)
     common.cleanup_scratch()
     bad = [(i, s, d) for i, s, d in viols if s.get("kind") != "__stat__"]
     for s in summ:
